@@ -138,6 +138,10 @@ def replay_file(path):
             rt.vals.keys.append(k)
     rt.scn_files = (sys.modules[type(scn).__module__].__file__,)
     rep = replay(scn, de_steps(body['steps']), body['inputs'], body['kind'])
+    if rep['reproduced'] and hasattr(scn, 'real_replay'):
+        # scenarios whose model threads stand for something else (asyncio tasks, processes): the real thing decides
+        rep2 = scn.real_replay(body['inputs'], de_steps(body['steps']))
+        rep = dict(rep2, model_thread_replay=rep['observed'])
     return body, rep
 
 
